@@ -330,6 +330,14 @@ func ruleConnWriters(r *Run) {
 			}
 		}
 		if len(ctxs) == 0 {
+			// not under any go statement: it runs on the goroutine of the HTTP entry that
+			// reaches it synchronously (a helper split out of the handler keeps its context)
+			noGo := func(e *Edge) bool { _, spawned := e.Site.(*ssa.Go); return spawned }
+			for _, entry := range []string{"pebbles.(*Gateway).subscriptionHandler", "pebbles.(*Gateway).queryHandler"} {
+				if h := r.P.Fn(entry); h != nil && r.P.CG.Reachable([]*ssa.Function{h}, noGo)[fn] {
+					return "handler goroutine (" + entry + ")"
+				}
+			}
 			return "handler goroutine (" + fnName(topFn(fn)) + ")"
 		}
 		sort.Strings(ctxs)
@@ -396,6 +404,9 @@ func ruleTeardown(r *Run) {
 			if mc, ok := d.Call.Value.(*ssa.MakeClosure); ok {
 				tearDefer = d
 				tear = mc.Fn.(*ssa.Function)
+			} else if sf := d.Call.StaticCallee(); sf != nil && inModule(sf) && sf.Blocks != nil {
+				tearDefer = d
+				tear = sf
 			} else if _, ok := d.Call.Value.(*ssa.Extract); ok {
 				cancelDefer = d // cancel func from context.WithCancel
 			}
@@ -454,6 +465,9 @@ func ruleTeardown(r *Run) {
 				if mc, ok := dd.Call.Value.(*ssa.MakeClosure); ok {
 					d = dd
 					lit = mc.Fn.(*ssa.Function)
+				} else if sf := dd.Call.StaticCallee(); sf != nil && inModule(sf) && sf.Blocks != nil {
+					d = dd
+					lit = sf
 				}
 			}
 		}
